@@ -275,44 +275,53 @@ func (k *Keys) ReadKey() (key rune, isAbort bool) {
 	}()
 
 	switch {
-	case len(k.buf) > 0:
+	case len(k.buf) > 0 && utf8.FullRune(k.buf):
 		// Keys that were read along with the command's own
 		// keys (pasted or typed ahead) come first.
 		char, size := utf8.DecodeRune(k.buf)
 		key = char
 		k.buf = k.buf[size:]
 
-	case len(k.macroKeys) > 0:
+	case len(k.buf) == 0 && len(k.macroKeys) > 0:
 		key = k.macroKeys[0]
 		k.macroKeys = k.macroKeys[1:]
 		k.fromMacro = true
 
 	case k.waiting:
-		buf := <-k.keysOnce
+		// A read that ends inside a character is completed by the next one.
+		buf := append(k.buf, <-k.keysOnce...)
+		for !utf8.FullRune(buf) {
+			buf = append(buf, <-k.keysOnce...)
+		}
 
 		// Only the first key is ours: the others read
 		// along with it stay in the stack, to be used next.
 		char, size := utf8.DecodeRune(buf)
 		key = char
-		k.buf = append(k.buf, buf[size:]...)
+		k.buf = buf[size:]
 	default:
-		var buf []byte
+		// The first bytes of a character may already be in the stack.
+		buf := k.buf
 
-		for len(buf) == 0 {
+		for len(buf) == 0 || !utf8.FullRune(buf) {
 			read, err := k.readInputFiltered()
 			if err != nil || len(read) == 0 {
+				if len(buf) > 0 {
+					break
+				}
+
 				// No key will come: behave as if the command had been aborted.
 				k.closed = err
 				return inputrc.Esc, true
 			}
 
 			// The same keys as if they had been read before the command was called.
-			buf = k.convertMeta(read)
+			buf = append(buf, k.convertMeta(read)...)
 		}
 
 		char, size := utf8.DecodeRune(buf)
 		key = char
-		k.buf = append(k.buf, buf[size:]...)
+		k.buf = buf[size:]
 	}
 
 	// Always mark those keys as matched, so that
